@@ -223,13 +223,13 @@ func (runInfo *runInfoStruct) callExpr() {
 	// useCallSlice lets us know to use CallSlice instead of Call because of the format of the args
 	if useCallSlice {
 		if callExpr.Go {
-			go f.CallSlice(args)
+			go runInfo.goCall(func() { f.CallSlice(args) })
 			return
 		}
 		rvs = f.CallSlice(args)
 	} else {
 		if callExpr.Go {
-			go f.Call(args)
+			go runInfo.goCall(func() { f.Call(args) })
 			return
 		}
 		rvs = f.Call(args)
@@ -307,17 +307,18 @@ func (runInfo *runInfoStruct) callVMFunctionDirect(f reflect.Value, callExpr *as
 	runInfo.rv = nilValue
 
 	if callExpr.Go {
+		ctx := runInfo.ctx
 		switch {
 		case fn0 != nil:
-			go fn0(runInfo.ctx)
+			go runInfo.goCall(func() { fn0(ctx) })
 		case fn1 != nil:
-			go fn1(runInfo.ctx, args[0])
+			go runInfo.goCall(func() { fn1(ctx, args[0]) })
 		case fn2 != nil:
-			go fn2(runInfo.ctx, args[0], args[1])
+			go runInfo.goCall(func() { fn2(ctx, args[0], args[1]) })
 		case fn3 != nil:
-			go fn3(runInfo.ctx, args[0], args[1], args[2])
+			go runInfo.goCall(func() { fn3(ctx, args[0], args[1], args[2]) })
 		case fn4 != nil:
-			go fn4(runInfo.ctx, args[0], args[1], args[2], args[3])
+			go runInfo.goCall(func() { fn4(ctx, args[0], args[1], args[2], args[3]) })
 		}
 		return true
 	}
@@ -348,6 +349,17 @@ func (runInfo *runInfoStruct) callVMFunctionDirect(f reflect.Value, callExpr *as
 
 	runInfo.rv = rv
 	return true
+}
+
+// goCall runs call on the goroutine started by a go statement.
+// A panic of the called function must not take the host program down: as for
+// a normal call it is captured when Debug is off, but there is nobody to
+// report it to.
+func (runInfo *runInfoStruct) goCall(call func()) {
+	if !runInfo.options.Debug {
+		defer func() { recover() }()
+	}
+	call()
 }
 
 // checkIfRunVMFunction checking the number and types of the reflect.Type.
